@@ -14,6 +14,8 @@ from .. import cards, rel, yrun
 from ..engine import digest
 from ..ref import ref_basis, ref_tmc
 
+HISTORY_SWEEP = True
+HISTORY_SWEEP_PER_PROCESS = 5  # each state already consists of several real runs
 ID = "C10"
 RTOL = 5e-7
 NEEDS = {"F2": ["F2"], "FL": ["FL", "F2"], "F3": ["F3"], "g1": ["g1"]}
